@@ -395,6 +395,7 @@ fn scenario_group_commit(out: &mut CaseOut, rng: &mut Rng) {
     let rec = Arc::new(Recorder::new());
     let keys: Vec<Vec<u8>> = (0..4).map(|i| format!("gk{i}").into_bytes()).collect();
     let n_followers = rng.range(2, 6) as u32;
+    let big_follower = rng.chance(0.7);
     let gate = d.arm(1, "write.before_wal", 1);
     let mut handles = vec![];
     for t in 1..=(n_followers + 1) {
@@ -402,10 +403,13 @@ fn scenario_group_commit(out: &mut CaseOut, rng: &mut Rng) {
         let mut trng = rng.fork("gc");
         let ops = gen_ops(&mut trng, &keys, 3, 0);
         let delay = if t == 1 { 0 } else { 5 + t as u64 };
+        // in every other case the second follower writes values of 150-260 KiB: the group formed
+        // behind the parked leader then runs into its size cap right at that writer
+        let value_len = if big_follower && t == 3 { 150 * 1024 + (t as usize * 7919) % (110 * 1024) } else { 40 };
         handles.push(std::thread::Builder::new().name(format!("c05-writer-{t}")).spawn(move || {
             set_role(t);
             std::thread::sleep(Duration::from_millis(delay));
-            let e = run_client(&db, &rec, t, &ops, &mut trng, 40);
+            let e = run_client(&db, &rec, t, &ops, &mut trng, value_len);
             drop(db);
             e
         }).unwrap());
@@ -445,7 +449,7 @@ fn scenario_group_commit(out: &mut CaseOut, rng: &mut Rng) {
     if arrived && (group_sizes as u32) < (n_followers + 1) * 3 {
         out.add("windows_achieved", 1);
         out.add("merged_group_commits", 1);
-        out.nontrivial(format!("group-commit/followers{}/appends{}", n_followers, group_sizes));
+        out.nontrivial(format!("group-commit/followers{}/appends{}/big{}", n_followers, group_sizes, big_follower as u8));
     }
     let _ = writes;
     close_db(out, db);
